@@ -31,7 +31,7 @@ SUP2 = [[[2, 0], [0, 1]], [[1, 1], [-1, 1]], [[1, 0], [0, 2]], [[2, 1], [0, 1]],
 def cases(draw):
     kind = draw(st.sampled_from(["interstitial", "vacancy"]))
     if kind == "vacancy":
-        setup = draw(vs.setups(nthermo=(1,), originstates="no" if EXCLUDE_R11 else "any", max_jumps=30))
+        setup = draw(vs.setups(nthermo=(1,), originstates="no" if EXCLUDE_R11 else "any", max_jumps=30, prune=False))
         rec, chem, k = setup["recipe"], setup["chem"], setup["k"]
     else:
         rec = draw(cs.recipes(max_mobile=4, max_other=3, names=["FCC", "BCC", "HCP", "B2", "omega", "honeycomb", "HCPoct", "FCCoct", "rect2", "tetP2", "square", "tria", "diamond"]))
